@@ -98,6 +98,7 @@ type HandlerConfig struct {
 type FBDNSDB struct {
 	ReloadChan    chan ReloadSignal
 	dnsdb         *db.DB
+	generation    uint64 // bumped under reloadMu each time a reload succeeds
 	dbConfig      DBConfig
 	handlerConfig HandlerConfig
 	cacheConfig   CacheConfig
@@ -373,6 +374,7 @@ func (h *FBDNSDB) Reload(s ReloadSignal) (err error) {
 
 	// if we didn't timeout and reloading finished without errors
 	h.dnsdb = newDB
+	h.generation++
 	h.dbConfig.Path = newPath
 
 	if h.cacheConfig.Enabled && h.lru != nil {
@@ -391,9 +393,28 @@ func (h *FBDNSDB) Reload(s ReloadSignal) (err error) {
 // providing a consistent view on the DB during a query.
 // The Reader must be `Close`d when not needed anymore.
 func (h *FBDNSDB) AcquireReader() (db.Reader, error) {
+	reader, _, err := h.acquireReader()
+	return reader, err
+}
+
+// acquireReader is AcquireReader which also tells the generation of the DB
+// the reader is pinned to.
+func (h *FBDNSDB) acquireReader() (db.Reader, uint64, error) {
 	h.reloadMu.RLock()
 	defer h.reloadMu.RUnlock()
-	return db.NewReader(h.dnsdb)
+	reader, err := db.NewReader(h.dnsdb)
+	return reader, h.generation, err
+}
+
+// cacheAdd caches an answer computed on the given DB generation, unless a
+// reload happened since: that reload has purged the cache, and an answer of
+// the previous generation must not outlive it.
+func (h *FBDNSDB) cacheAdd(generation uint64, key string, entry cacheEntry) {
+	h.reloadMu.RLock()
+	defer h.reloadMu.RUnlock()
+	if h.generation == generation {
+		h.lru.Add(key, entry)
+	}
 }
 
 // Close closes the database. It also takes care of closing the channel used
